@@ -32,21 +32,28 @@ B1(p) == Sub(p[2], p[1])
 B2(p) == Sub(p[3], p[2])
 B3(p) == Sub(p[4], p[3])
 
+\* All integer quantities of a tuple, computed once (LET-bound values are cached by TLC):
+\*   y = |b2| * trip,  x = (b1 x b2).(b2 x b3),  a = (b2.b2) trip^2 = y^2,  x2 = x^2
+Params(p) ==
+  LET b1 == B1(p)  b2 == B2(p)  b3 == B3(p)
+      n1 == Cross(b1, b2)  n2 == Cross(b2, b3)
+      trip == Dot(b1, n2)  x == Dot(n1, n2)  q2 == Dot(b2, b2) IN
+  [n1 |-> n1, n2 |-> n2, trip |-> trip, x |-> x, a |-> q2 * trip * trip, x2 |-> x * x]
+
 \* the torsion is defined iff neither bond angle is 0 or 180 degrees
-NonDegenerate(p) == Cross(B1(p), B2(p)) # Zero3 /\ Cross(B2(p), B3(p)) # Zero3
-
-Trip(p) == Dot(B1(p), Cross(B2(p), B3(p)))                       \* y = |b2| * Trip
-XNum(p) == Dot(Cross(B1(p), B2(p)), Cross(B2(p), B3(p)))         \* x
-YvsX(p) == Sgn(Dot(B2(p), B2(p)) * Trip(p) * Trip(p) - XNum(p) * XNum(p))   \* sign(|y| - |x|)
-
+NonDegP(P)  == P.n1 # Zero3 /\ P.n2 # Zero3
 \* cell from sign(x), sign(y), sign(|y|-|x|)   (sx = sy = 0 cannot happen when non-degenerate)
 CellOfSigns(sx, sy, c) ==
   IF sy = 0 THEN (IF sx > 0 THEN 0 ELSE 8)
   ELSE IF sx = 0 THEN 4 * sy
   ELSE IF sx > 0 THEN sy * (2 + c)
   ELSE sy * (6 - c)
+CellP(P)    == CellOfSigns(Sgn(P.x), Sgn(P.trip), Sgn(P.a - P.x2))
 
-IUPACCell(p) == CellOfSigns(Sgn(XNum(p)), Sgn(Trip(p)), YvsX(p))
+NonDegenerate(p) == NonDegP(Params(p))
+Trip(p)      == Params(p).trip                                   \* y = |b2| * Trip
+XNum(p)      == Params(p).x                                      \* x
+IUPACCell(p) == CellP(Params(p))
 
 Cells      == -7..8
 NegCell(k) == IF k = 8 THEN 8 ELSE -k            \* cell of -phi ( -pi is identified with pi )
@@ -85,10 +92,12 @@ InRangeU(v) == -PiU <= v /\ v <= PiU                     \* (-pi, pi] at the rec
 \*     than 300 micro-radians when A, X2 <= 10^7  (AxisGapOK; holds on the whole lattice -2..2);
 \*   - if X2 \div 10000 < |A - X2| then |tan^2 - 1| > 1e-4 and the distance to the diagonal
 \*     directions +-pi/4, +-3pi/4 exceeds 20 micro-radians (FarFromDiagonal).
-AParam(p)  == Dot(B2(p), B2(p)) * Trip(p) * Trip(p)
-X2Param(p) == XNum(p) * XNum(p)
-AxisGapOK(p)       == AParam(p) <= 10000000 /\ X2Param(p) <= 10000000
-FarFromDiagonal(p) == (X2Param(p) \div 10000) < Abs(AParam(p) - X2Param(p))
+AxisGapOKP(P)       == P.a <= 10000000 /\ P.x2 <= 10000000
+FarFromDiagonalP(P) == (P.x2 \div 10000) < Abs(P.a - P.x2)
+AxisGapOK(p)        == AxisGapOKP(Params(p))
+FarFromDiagonal(p)  == FarFromDiagonalP(Params(p))
+AParam(p)  == Params(p).a
+X2Param(p) == Params(p).x2
 \* v lies in cell k: on a boundary direction within tol; or strictly inside the open octant,
 \* more than tol away from both end directions.  Only when the tuple is not provably far from the
 \* diagonal end (far = FALSE) is a value within tol of that diagonal direction tolerated.
